@@ -204,6 +204,15 @@ def extra_configs():
         for body in ('small', 'large', 'raises'):
             for text in (False, True):
                 out.append(dict(base, part_name=name, decoy=True, body=body, text_mode=text))
+    # destination names at the file system's name limit (255): the default part name does not fit, so the save is refused
+    # by the operating system (or succeeds, for names that leave room) - either way the destination is never the victim
+    for name in ('a' * 250 + '.part', 'b' * 251, 'c' * 255, 'd' * 246 + '.part', 'e' * 250):
+        for overwrite_part in (False, True):
+            for body in ('small', 'raises'):
+                for dest in (False, True):
+                    for relative in (False, True):
+                        out.append(dict(base, dest_name=name, overwrite_part=overwrite_part, body=body, dest_present=dest,
+                                        relative=relative))
     # the part file in progress has a second hard link (snapshot tool, the body itself) while the save fails or is refused
     for body in ('small_linked', 'raises_linked'):
         for overwrite in (True, False):
@@ -265,9 +274,10 @@ def extra_configs():
 class Scenario:
     def __init__(self, cfg, d):
         self.cfg, self.d = cfg, d
-        self.dest = os.path.join(d, 'dest.txt')
+        self.dest_name = cfg.get('dest_name', 'dest.txt')
+        self.dest = os.path.join(d, self.dest_name)
         self.part = os.path.join(d, cfg['part_name']) if cfg.get('part_name') else self.dest + '.part'
-        self.own = ('dest.txt', os.path.basename(self.part), SNAP)
+        self.own = (self.dest_name, os.path.basename(self.part), SNAP)
         self.dest_abs = self.dest
         self.plan = body_plan(cfg['body'])
         self.new = new_content(self.plan)
@@ -374,8 +384,8 @@ class Scenario:
             if cfg.get('relative'):         # a destination given relative to the working directory
                 cwd = os.getcwd()
                 os.chdir(self.d)
-                self.dest_abs = os.path.join(os.getcwd(), 'dest.txt')
-                path = 'dest.txt'
+                self.dest_abs = os.path.join(os.getcwd(), self.dest_name)
+                path = self.dest_name
             make = fileutils.atomic_save if cfg.get('entry') == 'atomic_save' else fileutils.AtomicSaver
             saver = make(path, **kw)
             if cfg.get('reuse'):
@@ -498,6 +508,9 @@ def judge(sc, env, exc, before, retry=True):
     published = any(ev['name'] in ('rename', 'replace', 'link') and not str(ev.get('result', '')).startswith('errno')
                     and len(ev['args']) > 1 and ev['args'][1] in (sc.dest, sc.dest_abs) for ev in log)
     raised_faults = [a for a in fired if a[0] == 'raise']
+    # the part file's name does not fit the file system's limit: the operating system itself (no injected fault) reports
+    # the error when the part file is created, before the body runs, and will do so again on every retry
+    os_refuses = len(os.fsencode(os.path.basename(sc.part))) > 255
     other = sc.other_created
     refused_expected = (not cfg['overwrite'] and (dest0 is not None or other)) or \
                        (cfg['part_present'] and not cfg['overwrite_part']) or is_dir
@@ -546,7 +559,7 @@ def judge(sc, env, exc, before, retry=True):
         return out
     # the caller saw an exception
     closes = any(st[0] == 'close' for st in sc.plan)
-    if sc.body_raises and not fired and not refused_expected and type(exc) is not sc.body_exc and not closes:
+    if sc.body_raises and not fired and not refused_expected and not os_refuses and type(exc) is not sc.body_exc and not closes:
         out.append(('body exception replaced', sc.body_exc.__name__, type(exc).__name__))
     if published:
         # the fault hit after publication (e.g. unlink(src) after link): destination legitimately holds the new content
@@ -588,7 +601,7 @@ def judge(sc, env, exc, before, retry=True):
     # retry
     if retry and cfg['rm_part_on_exc'] and not unlink_failed and not published:
         blocked = (not cfg['overwrite'] and os.path.lexists(sc.dest)) or \
-                  (part0 is not None and not cfg['overwrite_part']) or is_dir
+                  (part0 is not None and not cfg['overwrite_part']) or is_dir or os_refuses
         if not blocked and not sc.body_raises:
             env2 = envfaults.Env()
             dprev = followed_mode(sc.dest)
